@@ -54,8 +54,73 @@ func init() {
 	})
 }
 
+// c02AnyReuse: a contained resource is read from the resource as it is at the time of the evaluation: when the caller
+// replaces the content of the same Any message between two evaluations, the second one sees the new content.
+func c02AnyReuse(env *core.Env) {
+	defer env.In("anyreuse")()
+	env.Case()
+	mk := func(id, fam string) *bcrpb.ContainedResource {
+		p := gen.StdPatient()
+		p.Id = &dtpb.Id{Value: id}
+		p.Name[0].Family = &dtpb.String{Value: fam}
+		return &bcrpb.ContainedResource{OneofResource: &bcrpb.ContainedResource_Patient{Patient: p}}
+	}
+	b := &basicpb.Basic{Id: &dtpb.Id{Value: "outer"}}
+	a, err := anypb.New(mk("c1", "First"))
+	if err != nil {
+		panic("harness: anypb.New: " + err.Error())
+	}
+	b.Contained = append(b.Contained, a)
+	in := []fhir.Resource{b}
+	srcs := []string{"Basic.contained.id", "Basic.contained.name.first().family", "Basic.contained.where(id = 'c2').exists()", "Basic.contained.children().first()", "Basic.contained.name.where(family = 'Second').exists()"}
+	for round, c := range []struct{ id, fam string }{{"c1", "First"}, {"c2", "Second"}, {"c3", "Third"}, {"c1", "First"}} {
+		if round > 0 {
+			if err := a.MarshalFrom(mk(c.id, c.fam)); err != nil {
+				panic("harness: MarshalFrom: " + err.Error())
+			}
+		}
+		for _, src := range srcs {
+			r := fx.Eval(env, src, in, nil, nil)
+			env.Cover("contained-reread")
+			if r.IsPanic() {
+				env.Violatef(fx.PanicSig("C02", r), "`%s` => %s", src, r.Short())
+				continue
+			}
+			ok := r.IsValue()
+			if ok {
+				switch {
+				case strings.HasSuffix(src, "exists()"):
+					ok = r.Bool3() == fmt.Sprint(c.id == "c2")
+				case strings.Contains(src, "family"):
+					ok = len(r.Raw) == 1 && protoText(r.Raw[0]) == c.fam
+				case strings.Contains(src, "descendants"):
+					ok = len(r.Raw) >= 1 && protoText(r.Raw[0]) == c.id
+				default:
+					ok = len(r.Raw) == 1 && protoText(r.Raw[0]) == c.id
+				}
+			}
+			if !ok {
+				env.Violatef("C02/contained/stale-after-any-replaced", "round %d: the contained Any now holds Patient %s/%s, `%s` => %s", round, c.id, c.fam, src, trunc(r.Short(), 160))
+			}
+		}
+	}
+}
+
+func protoText(v any) string {
+	switch x := v.(type) {
+	case *dtpb.Id:
+		return x.GetValue()
+	case *dtpb.String:
+		return x.GetValue()
+	}
+	return fmt.Sprintf("?%T", v)
+}
+
 func runC02(env *core.Env) {
 	types := gen.ResourceTypes()
+	if env.Shard == 5%env.NShards {
+		c02AnyReuse(env)
+	}
 	per := env.Size(1, 40)
 	n := 0
 	for k := 0; k < per; k++ {
@@ -593,6 +658,35 @@ func c02ComparePath(env *core.Env, tn string, in []fhir.Resource, tree *model.No
 		want := model.Walk([]*model.Node{tree}, st)
 		ri := fx.Eval(env, isrc, in, nil, nil)
 		env.Cover("indexed-compared")
+		c02Judge(env, tn, isrc, in, tree, names, want, ri)
+	}
+	// one index only, after un-indexed steps (the index then counts over the elements of all parents, of which some lack the element)
+	for variant := 0; variant < 3; variant++ {
+		pos := len(names) - 1
+		if variant == 2 {
+			pos = rng.Intn(len(names))
+		}
+		var st []model.Step
+		cur := []*model.Node{tree}
+		for i, nm := range names {
+			st = append(st, model.Step{Kind: "name", Name: nm})
+			cur = model.Walk(cur, []model.Step{{Kind: "name", Name: nm}})
+			if i == pos {
+				idx := len(cur) - 1
+				if variant >= 1 && len(cur) > 0 {
+					idx = 1 + rng.Intn(len(cur))
+				}
+				if idx < 0 {
+					idx = 0
+				}
+				st = append(st, model.Step{Kind: "index", N: idx})
+				cur = model.Walk(cur, []model.Step{{Kind: "index", N: idx}})
+			}
+		}
+		isrc := model.RenderPath(tn, st)
+		want := model.Walk([]*model.Node{tree}, st)
+		ri := fx.Eval(env, isrc, in, nil, nil)
+		env.Cover("single-index-compared")
 		c02Judge(env, tn, isrc, in, tree, names, want, ri)
 	}
 	// subsetting / filter steps of the walker's sub-language placed after a random prefix
